@@ -1,6 +1,6 @@
 #!/bin/sh
 # usage: tools/mutest.sh <patch.diff> <Cnn> [more Cnn...]   -- apply a seeded change to /repo, run the quick checks, undo
-P=$1; shift
+P=$(readlink -f "$1"); shift
 if ! git -C /repo diff --quiet; then echo "/repo dirty"; exit 9; fi
 if ! git -C /repo apply "$P" 2>/dev/null; then
   if ! git -C /repo apply --3way "$P" >/dev/null 2>&1; then echo "PATCH DOES NOT APPLY: $P"; git -C /repo reset -q --hard HEAD; exit 8; fi
